@@ -259,7 +259,7 @@ static void generate(Rng &rng, const Opts &o, std::vector<std::string> &lines) {
         lines.push_back(l.get());
     };
     for (long k = 0; k < N; ++k) {
-        int stream = (int)rng.range(0, 10);
+        int stream = (int)rng.range(0, 11);
         long n = rng.coin(1, 14) ? 1 : rng.range(2, nmax);
         Mat A = gen_matrix(rng, n, (int)rng.range(0, 7)); n = A.n;
         Q p = rng.pick(ps), tau = rng.pick(taus);
@@ -276,6 +276,11 @@ static void generate(Rng &rng, const Opts &o, std::vector<std::string> &lines) {
             n = rng.range(3, nmax); A = gen_dd(rng, n, (int)rng.range(40, 80), true); auto rows = to_rows(A);
             for (long i = 0; i < n; ++i) for (auto &cv : rows[i]) if (cv.first != i) cv.second = Q(rng.coin() ? 1 : -1);
             A = from_rows(n, n, rows); p = rng.pick(std::vector<Q>{ Q::frac(1, 2), Q::frac(2, 3), Q(1), Q(2) }); tau = rng.pick(std::vector<Q>{ Q(0), Q::frac(1, 100) });
+        } else if (stream == 11) {               // entries exactly AT the threshold: k off-diagonals of magnitude v, diagonal k*v, tau = 1/2 => tol = v
+            n = rng.range(2, nmax); Mat S = gen_sparse(rng, n, n, (int)rng.range(30, 80)); auto rows = to_rows(S); Rows nr(n);
+            for (long i = 0; i < n; ++i) { Q v = Q::frac(rng.range(1, 5), rng.range(1, 3)); long k = 0; for (auto &cv : rows[i]) if (cv.first != i) ++k;
+                for (auto &cv : rows[i]) if (cv.first != i) nr[i].push_back({cv.first, rng.coin() ? v : -v}); nr[i].push_back({i, k > 0 ? Q(k) * v : v}); std::sort(nr[i].begin(), nr[i].end(), [](auto &a, auto &b) { return a.first < b.first; }); }
+            A = from_rows(n, n, nr); p = rng.pick(std::vector<Q>{ Q(1), Q(2), Q(3) }); tau = Q::frac(1, 2);
         } else {                                 // dense-ish rows, small p: the fill limits cut a lot
             n = rng.range(3, nmax); A = distinct_magnitudes(gen_dd(rng, n, (int)rng.range(50, 90))); p = rng.pick(std::vector<Q>{ Q::frac(1, 2), Q::frac(2, 3), Q(1), Q::frac(5, 4) }); tau = rng.pick(std::vector<Q>{ Q(0), Q::frac(1, 100), Q::frac(1, 20) });
             for (int tries = 0; tries < 6 && is_tie(A, p, tau); ++tries) A = distinct_magnitudes(gen_dd(rng, n, (int)rng.range(50, 90)));
